@@ -24,6 +24,19 @@ import (
 
 var errInjected = errors.New("injected I/O fault")
 
+// c29Err is the error value a faulty reader / writer returns. A reader signals a graceful end of input with
+// io.EOF itself; io.ErrUnexpectedEOF and an error that merely wraps io.EOF ("read /dev/x: EOF") report a
+// failure - "some other error giving more detail" in the words of package io - and must surface like any other.
+func c29Err(kind string) error {
+	switch kind {
+	case "unexpected-eof":
+		return io.ErrUnexpectedEOF
+	case "wrapped-eof":
+		return fmt.Errorf("read /dev/injected: %w", io.EOF)
+	}
+	return errInjected
+}
+
 type C29Case struct {
 	Side   string        `json:"side"`  // write | read
 	Entry  string        `json:"entry"` // see c29WriteEntries / c29ReadEntries
@@ -32,6 +45,7 @@ type C29Case struct {
 	Events []ev.Event    `json:"events,omitempty"` // encoder entries (write side) and document source (read side)
 	Format string        `json:"format,omitempty"` // read side: cbe | cte
 	Block  int           `json:"block,omitempty"`  // read side: bytes granted per read (0 = as asked)
+	Err    string        `json:"err,omitempty"`    // error value returned by the fault: "" (plain) | unexpected-eof | wrapped-eof
 }
 
 var c29WriteEntries = []string{"MarshalCBE", "MarshalCTE", "CBEMarshaler.Marshal", "CTEMarshaler.Marshal", "CBEEncoder", "CTEEncoder"}
@@ -46,6 +60,7 @@ type faultWriter struct {
 	failAt int
 	mode   string
 	hit    bool
+	err    error
 }
 
 func (w *faultWriter) Write(p []byte) (int, error) {
@@ -53,11 +68,20 @@ func (w *faultWriter) Write(p []byte) (int, error) {
 	w.calls++
 	if w.failAt >= 0 && (i == w.failAt || (w.mode == "sticky" && i > w.failAt)) {
 		w.hit = true
+		if w.err == nil {
+			w.err = errInjected
+		}
 		if w.mode == "partial" {
 			w.bytes += len(p) / 2
-			return len(p) / 2, errInjected
+			return len(p) / 2, w.err
 		}
-		return 0, errInjected
+		if w.mode == "full-count" {
+			// everything was taken and the call still reports a failure (a failed flush behind the
+			// write, a tee whose second leg failed): io.Writer allows this combination
+			w.bytes += len(p)
+			return len(p), w.err
+		}
+		return 0, w.err
 	}
 	w.bytes += len(p)
 	return len(p), nil
@@ -75,22 +99,26 @@ type faultReader struct {
 	failAt int
 	mode   string
 	hit    bool
+	err    error
 }
 
 func (r *faultReader) Read(p []byte) (int, error) {
 	i := r.calls
 	r.calls++
+	if r.err == nil {
+		r.err = errInjected
+	}
 	if len(p) == 0 {
 		return 0, nil
 	}
 	failing := r.failAt >= 0 && (i == r.failAt || (r.mode != "once" && r.mode != "partial-once" && i > r.failAt))
 	if failing && r.mode != "partial" && r.mode != "partial-once" {
 		r.hit = true
-		return 0, errInjected
+		return 0, r.err
 	}
 	if failing && i > r.failAt {
 		r.hit = true
-		return 0, errInjected
+		return 0, r.err
 	}
 	n := len(p)
 	if r.block > 0 && r.block < n {
@@ -103,7 +131,7 @@ func (r *faultReader) Read(p []byte) (int, error) {
 	r.pos += n
 	if failing { // partial: data together with the error
 		r.hit = true
-		return n, errInjected
+		return n, r.err
 	}
 	if n == 0 {
 		return 0, io.EOF
@@ -184,6 +212,7 @@ func genC29(t *rapid.T, ctx *Ctx) interface{} {
 	evOpts.NoBitArray, evOpts.NoUIDArray = true, true
 	if rapid.Bool().Draw(t, "side") {
 		c := &C29Case{Side: "write", Entry: rapid.SampledFrom(c29WriteEntries).Draw(t, "entry")}
+		c.Err = rapid.SampledFrom([]string{"", "", "unexpected-eof", "wrapped-eof"}).Draw(t, "werr")
 		if c.Entry == "CBEEncoder" || c.Entry == "CTEEncoder" {
 			c.Events = gen.Document(t, evOpts)
 			return c
@@ -200,6 +229,7 @@ func genC29(t *rapid.T, ctx *Ctx) interface{} {
 		return c
 	}
 	c := &C29Case{Side: "read", Entry: rapid.SampledFrom(c29ReadEntries).Draw(t, "rentry")}
+	c.Err = rapid.SampledFrom([]string{"", "unexpected-eof", "wrapped-eof"}).Draw(t, "rerr")
 	c.Events = gen.Document(t, evOpts)
 	switch c.Entry {
 	case "UnmarshalCBE", "CBEDecoder.Decode", "CBEUnmarshaler.Unmarshal":
@@ -222,6 +252,7 @@ func init() {
 			c := ci.(*C29Case)
 			ctx.Label("side:" + c.Side)
 			ctx.Label("entry:" + c.Entry)
+			ctx.Label("error-value:" + c.Err)
 			faults, hits := 0, 0
 			defer func() {
 				ctx.Stats.Count("fault_positions_executed", int64(faults))
@@ -244,8 +275,8 @@ func init() {
 					limit = 400
 				}
 				for i := 0; i < limit; i++ {
-					for _, mode := range []string{"once", "sticky", "partial"} {
-						w := &faultWriter{failAt: i, mode: mode}
+					for _, mode := range []string{"once", "sticky", "partial", "full-count"} {
+						w := &faultWriter{failAt: i, mode: mode, err: c29Err(c.Err)}
 						faults++
 						err, bad := c29Write(c, ctx, w)
 						if bad != nil {
@@ -293,7 +324,7 @@ func init() {
 			}
 			for i := 0; i < limit; i++ {
 				for _, mode := range []string{"once", "sticky", "partial", "partial-once"} {
-					r := &faultReader{data: doc, block: c.Block, failAt: i, mode: mode}
+					r := &faultReader{data: doc, block: c.Block, failAt: i, mode: mode, err: c29Err(c.Err)}
 					faults++
 					err, bad := c29Read(c, ctx, doc, r)
 					if bad != nil {
@@ -304,8 +335,8 @@ func init() {
 					}
 					hits++
 					if err == nil {
-						return fmt.Errorf("%s reported success although read call %d of %d failed with a non-EOF error (%s, block=%d, %d of %d bytes delivered)\ndoc=%s",
-							c.Entry, i, probe.calls, mode, c.Block, r.pos, len(doc), docdump(c.Format, doc))
+						return fmt.Errorf("%s reported success although read call %d of %d failed with the error %q (%s, block=%d, %d of %d bytes delivered)\ndoc=%s",
+							c.Entry, i, probe.calls, r.err, mode, c.Block, r.pos, len(doc), docdump(c.Format, doc))
 					}
 				}
 			}
